@@ -532,6 +532,11 @@ services:
     build: ./onectx
     volumes: ["./onedata:/d"]
     env_file: ./one.env
+  onepass:
+    image: onepass
+    environment: [ONETAG, NOT_SET_ANYWHERE]
+  oneplain:
+    image: oneplain
 volumes:
   onevol: {}
 `
@@ -543,6 +548,16 @@ services:
     environment:
       - T=${TWOTAG}
     configs: [twoconf]
+  twopass:
+    image: twopass
+    environment:
+      - TWOTAG
+      - MAINTAG
+  twomapped:
+    image: twomapped
+    environment: {K: v, TWOTAG: }
+  twoplain:
+    image: twoplain
 configs:
   twoconf: {file: ./two.conf}
 `
